@@ -51,9 +51,12 @@ SPEC = dict(
          "constant matrices (5%), arbitrary finite bit patterns (8%), ill-conditioned (3%, the known IEEE gap), "
          "matrices around the boundary of the conditioning predicate (7%), non-finite non-wildcard cells (4%, "
          "outside the theorem, inside the model), one dominant + many flat rows (5%), empty (1%); wildcard column "
-         "-inf (50%) or finite/+inf/NaN; sequences of length 0..260 (thorough ..700) built from the consensus "
-         "word, the minimum word, near-consensus words, words with wildcards, runs of N and random stretches; 22 "
-         "thresholds per case (+-inf, NaN, +-0, min/max score and neighbours, attainable scores, random). "
+         "-inf (45%), finite below the row minimum (10%), finite inside the row's range (10%), the row minimum, 0, "
+         "above the row maximum, random, +inf/NaN; sequences of length 0..260 (thorough ..700) built from the consensus "
+         "word, the minimum word, near-consensus words, words with wildcards, runs of N and random stretches; 30-45 "
+         "thresholds per case (+-inf, NaN, +-0, min/max score and both neighbours, min - {0.002,0.01,0.5,1,1.5}*range, "
+         "max + 0.01*range, min-1, max+1, attainable scores, the real scores of up to 5 windows of the sequence "
+         "(windows with N first) and their neighbours, random in and around the range, one arbitrary finite). "
          "Observed and compared bit-exactly with the extracted binary32/u8 model (DIFF): factor, offset, offsets "
          "(read from the Debug output), min/max_score, all discrete cells, scale(t), unscale(b), "
          "ScoringMatrix::score_position and scale of it and DiscreteMatrix::score_position at every position, the "
@@ -61,7 +64,11 @@ SPEC = dict(
          "arm (sequence striped under that arm) and score_rows_into over a random row range. Property checker "
          "(extracted first_bad / check_C08, proved equivalent to the property) on the implementation's own "
          "numbers: for every position and every source of a byte score, byte score >= scale(real score); all arms "
-         "equal cell-wise. A failure is tagged ill-conditioned iff the extracted predicate well_conditioned "
+         "equal cell-wise. In addition the extracted first_bad_impl / check_C08_impl (C08_check_impl_sound) judges the "
+         "implementation's OWN images, not the model's: dm.scale(real score of position i) <= byte score, and for "
+         "every threshold t_j with t_j <= real score (IEEE <= on the observed bit patterns) dm.scale(t_j) <= byte "
+         "score (PROPFAIL threshold-transfer-lost), so that a wrong scale() is a failing input and not only a DIFF. "
+         "A failure of the main clause is tagged ill-conditioned iff the extracted predicate well_conditioned "
          "(factor = 0 or factor >= 8*(M+1)*ulp(sum of per-row max |cell|)) is false. Non-trivial: distinct (matrix, sequence) "
          "with M >= 2 and at least one scored position.",
     trusted_base=[
